@@ -140,17 +140,18 @@ macro_rules! impl_numeric_cast {
 
         #[cfg(feature="time")]
         impl<U: TimeUnitTrait> Cast<DateTime<U>> for $T {
-            #[inline] fn cast(self) -> DateTime<U> { Cast::<i64>::cast(self).into() }
+            // a null number (NaN) is NaT, like None
+            #[inline] fn cast(self) -> DateTime<U> { Cast::<Option<i64>>::cast(self).into() }
         }
 
         #[cfg(feature="time")]
         impl Cast<TimeDelta> for $T {
-            #[inline] fn cast(self) -> TimeDelta { Cast::<i64>::cast(self).into() }
+            #[inline] fn cast(self) -> TimeDelta { Cast::<Option<i64>>::cast(self).into() }
         }
 
         #[cfg(feature="time")]
         impl Cast<Time> for $T {
-            #[inline] fn cast(self) -> Time { Cast::<i64>::cast(self).into() }
+            #[inline] fn cast(self) -> Time { Cast::<Option<i64>>::cast(self).into() }
         }
 
 
@@ -263,8 +264,9 @@ impl Cast<Time> for Option<bool> {
 macro_rules! impl_time_cast {
     ($($T: ty),*) => {
         $(
+            // NaT goes through None: NaN for float targets (like Option<i64> -> $T)
             impl<U: TimeUnitTrait> Cast<$T> for DateTime<U> {
-                #[inline] fn cast(self) -> $T { Cast::<i64>::cast(self).cast() }
+                #[inline] fn cast(self) -> $T { Cast::<Option<i64>>::cast(self).cast() }
             }
 
             impl<U: TimeUnitTrait> Cast<Option<$T>> for DateTime<U> {
@@ -279,7 +281,7 @@ macro_rules! impl_time_cast {
 
 
             impl Cast<$T> for TimeDelta {
-                #[inline] fn cast(self) -> $T { Cast::<i64>::cast(self).cast() }
+                #[inline] fn cast(self) -> $T { Cast::<Option<i64>>::cast(self).cast() }
             }
 
             impl Cast<Option<$T>> for TimeDelta {
@@ -293,7 +295,7 @@ macro_rules! impl_time_cast {
             }
 
             impl Cast<$T> for Time {
-                #[inline] fn cast(self) -> $T { Cast::<i64>::cast(self).cast() }
+                #[inline] fn cast(self) -> $T { Cast::<Option<i64>>::cast(self).cast() }
             }
 
             impl Cast<Option<$T>> for Time {
@@ -330,7 +332,9 @@ impl Cast<i64> for TimeDelta {
     #[inline]
     fn cast(self) -> i64 {
         let months = self.months;
-        if months != 0 {
+        if self.is_nat() {
+            i64::MIN
+        } else if months != 0 {
             panic!("not support cast TimeDelta to i64 when months is not zero")
         } else {
             self.inner.num_microseconds().unwrap_or(i64::MIN)
@@ -343,7 +347,9 @@ impl Cast<Option<i64>> for TimeDelta {
     #[inline]
     fn cast(self) -> Option<i64> {
         let months = self.months;
-        if months != 0 {
+        if self.is_nat() {
+            None
+        } else if months != 0 {
             panic!("not support cast TimeDelta to i64 when months is not zero")
         } else {
             self.inner.num_microseconds().map(Some).unwrap_or(None)
